@@ -290,20 +290,30 @@ def canary_unit(args):
         res.update(status="undecided", why=f"weave: {e}")
         return res
     lines = open(woven).read().split("\n")
-    out, marks = [], []
+    out, marks = [], []     # marks: (line of a canary, handler ordinal); a handler is reachable when ANY of its canaries fails
     tail_body = False
+    inside = False
+    nh = -1
     for idx, l in enumerate(lines):
         if "/* ---- extracted from" in l:
             # a body whose value is the function result gets its canary in front of it
             e = next(k for k in range(idx, len(lines)) if "/* ---- end of extracted body" in lines[k])
             tail_body = "(its value is the result)" in lines[e]
+            inside = True
+            nh += 1
             if tail_body:
                 out.append("    assert(false); /* @canary */")
-                marks.append(len(out))
-        out.append(l)
-        if "/* ---- end of extracted body ---- */" in l and not tail_body:
+                marks.append((len(out), nh))
+        elif inside and re.match(r"^\s*return\b.*;\s*(/\*.*\*/\s*)?$", l):
+            # a body may leave early: the end is then not the only place to look at
             out.append("    assert(false); /* @canary */")
-            marks.append(len(out))
+            marks.append((len(out), nh))
+        out.append(l)
+        if "/* ---- end of extracted body" in l:
+            inside = False
+            if not tail_body:
+                out.append("    assert(false); /* @canary */")
+                marks.append((len(out), nh))
     path = woven[:-3] + "_canary.rs"
     open(path, "w").write("\n".join(out))
     p = sh(["verus", path, "--error-format=json", "--multiple-errors", "40"])
@@ -321,11 +331,12 @@ def canary_unit(args):
                 for sp in d.get("spans", []):
                     if sp.get("is_primary"):
                         failed_lines.add(sp["line_start"])
-    res["handlers"] = len(marks)
+    res["handlers"] = nh + 1
     okv = set(sum((x.split() for x in re.findall(r"^//@vacuous-ok[ \t]+(.+)$", open(os.path.join(VERIF, "contracts", name + ".rs")).read(), re.M)), []))
-    for mline in marks:
-        if mline not in failed_lines and enclosing_fn(out, mline) not in okv:
-            res["vacuous"].append(enclosing_fn(out, mline))
+    for k in range(nh + 1):
+        mine = [ml for (ml, kk) in marks if kk == k]
+        if mine and not any(ml in failed_lines for ml in mine) and enclosing_fn(out, mine[-1]) not in okv:
+            res["vacuous"].append(enclosing_fn(out, mine[-1]))
     if res["vacuous"]:
         res["status"] = "vacuous"
     return res
